@@ -19,6 +19,7 @@ import (
 	"regexp"
 	"runtime"
 	"strings"
+	"sync"
 	"sync/atomic"
 	"time"
 
@@ -65,6 +66,11 @@ func (h holdLog) WithAttrs([]slog.Attr) slog.Handler { return h }
 func (h holdLog) WithGroup(string) slog.Handler      { return h }
 
 func pipelineWorld(rc *kernel.RunCtx, k *kernel.Kernel) {
+	// Several goroutines of the command become runnable at the same fake instant (a watcher
+	// timer and the collector's timer, a released worker and the collector). With one P they
+	// run one after the other in run-queue order, so the run is a function of the tape (the
+	// same under-approximation as in the rpc and lsp worlds).
+	defer runtime.GOMAXPROCS(runtime.GOMAXPROCS(1))
 	t := rc.T
 	fam := families[t.Choose(len(families), "family")]
 	var trace []string
@@ -104,19 +110,20 @@ func pipelineWorld(rc *kernel.RunCtx, k *kernel.Kernel) {
 		os.Rename(tmp, src)
 		cur = v
 	}
-	// writes of the generated file in flight (the command's build must not read half a file:
-	// the stand-in for the command waits for them, as a compiler would see either version)
-	var writing atomic.Int32
+	// The command's build must not read half a file: writes of the generated file and the
+	// stand-in's read of it exclude each other (a compiler sees either version; which one does
+	// not matter to the oracle, because a write that changes the code is followed by a restart).
+	var genMu sync.Mutex
 	simos.SetHook(&simos.HookT{Now: time.Now,
 		Before: func(op, path string) simos.Fault {
 			if op == "WriteFile" && path == gen {
-				writing.Add(1)
+				genMu.Lock()
 			}
 			return simos.Fault{}
 		},
 		After: func(op, path string) {
 			if path == gen {
-				writing.Add(-1)
+				genMu.Unlock()
 			}
 		}})
 	defer simos.SetHook(nil)
@@ -128,10 +135,9 @@ func pipelineWorld(rc *kernel.RunCtx, k *kernel.Kernel) {
 	starts := 0
 	builtShape := ""
 	run.VerifRunHook = func(ctx context.Context, dir, input string) error {
-		for i := 0; i < 100000 && writing.Load() > 0; i++ {
-			runtime.Gosched()
-		}
+		genMu.Lock()
 		b, err := os.ReadFile(gen)
+		genMu.Unlock()
 		if err != nil {
 			return err
 		}
